@@ -284,4 +284,6 @@ def run(tier):
     chunk_completion(chk)
     authenticated_bytes(chk)
     chk.floor('obligations', len(chk.obls), 18)
+    from .. import lints
+    lints.length_is_boolean(chk, ['src/aead/'])
     return chk.finish()
